@@ -46,6 +46,8 @@ def run(ctx):
     # independence of wall-clock speed: the only place where two threads could both act on the model is the start hand-over
     from .. import simrules as S
     S.wakeup_last(ctx, S.SimCtx(prog), 'R7.6')
+    # independence of where the run was paused: no notification exists only because of a pause
+    S.time_changed_sites(ctx, S.SimCtx(prog), 'R7.7')
 
 
 def set_typed_names(prog):
